@@ -53,6 +53,8 @@ pub mod mstr {
     /// switch rendering off (names influence nothing else); the thread-name harnesses (C08) keep it on.
     static mut RENDER: bool = true;
     pub fn set_render(on: bool) { unsafe { RENDER = on; } }
+    /// forget all strings (called between the programs packed into one harness; no handle survives a program)
+    pub fn reset() { unsafe { NEXT = 0; RENDER = true; } }
     #[derive(Clone, Copy)]
     pub struct MStr { i: usize }
     impl MStr {
@@ -141,6 +143,7 @@ pub mod thread {
     pub static mut LATE: usize = 0;                    // threads whose body ran at join time
     pub static mut EARLY: usize = 0;                   // threads whose body ran at spawn time
     pub static mut FAULTED: usize = 0;
+    pub static mut FAULT_SEEN: usize = 0;              // joins that returned Err
     pub static mut PARENT: [usize; MAXT] = [0; MAXT];  // id of the thread that spawned id
     pub static mut LIVE_AT_JOIN: [usize; MAXT] = [0; MAXT]; // LIVE when join(id) was called (incl. id)
     pub static mut SPAWNED_AT_JOIN: [usize; MAXT] = [0; MAXT];
@@ -148,8 +151,10 @@ pub mod thread {
     pub static mut OPS: [u8; 2 * MAXT] = [0; 2 * MAXT]; // op log: id = spawn(id), 100+id = join(id)
     pub static mut NOPS: usize = 0;
     pub static mut FAULTS: bool = false;
+    /// 0 = every thread's placement is a symbolic bit (default); 1 = all early; 2 = all late
+    pub static mut SCHED: u8 = 0;
     fn op(c: u8) { unsafe { assert!(NOPS < 2 * MAXT, "thread model: op log full"); OPS[NOPS] = c; NOPS += 1; } }
-    pub fn reset() { unsafe { CUR = None; CUR_ID = 0; SPAWNED = 0; JOINED = 0; LIVE = 0; MAX_LIVE = 0; LATE = 0; EARLY = 0; FAULTED = 0; NOPS = 0; FAULTS = false; } }
+    pub fn reset() { unsafe { CUR = None; CUR_ID = 0; SPAWNED = 0; JOINED = 0; LIVE = 0; MAX_LIVE = 0; LATE = 0; EARLY = 0; FAULTED = 0; FAULT_SEEN = 0; NOPS = 0; FAULTS = false; SCHED = 0; } }
     pub fn set_current_name(n: Option<MStr>) { unsafe { CUR = n; } }
 
     #[derive(Clone, Copy, PartialEq, Eq, Debug)]
@@ -189,7 +194,7 @@ pub mod thread {
             op(id as u8);
             let fault = unsafe { FAULTS } && crate::nd::bool();
             if fault { unsafe { FAULTED += 1; } drop(f); return Ok(JoinHandle { f: None, r: None, id, name: self.name, fault: true }); }
-            let eager = crate::nd::bool();
+            let eager = match unsafe { SCHED } { 1 => true, 2 => false, _ => crate::nd::bool() };
             if eager { unsafe { EARLY += 1; } let r = run(id, self.name, f); Ok(JoinHandle { f: None, r: Some(r), id, name: self.name, fault: false }) }
             else { Ok(JoinHandle { f: Some(f), r: None, id, name: self.name, fault: false }) }
         }
@@ -204,7 +209,7 @@ pub mod thread {
                 LIVE_AT_JOIN[self.id] = LIVE; SPAWNED_AT_JOIN[self.id] = SPAWNED; JOINED_BY[self.id] = CUR_ID + 1;
                 JOINED += 1; LIVE -= 1;
             }
-            if self.fault { return Err(Panicked); }
+            if self.fault { unsafe { FAULT_SEEN += 1; } return Err(Panicked); }
             if let Some(f) = self.f.take() { unsafe { LATE += 1; } Ok(run(self.id, self.name, f)) } else { Ok(self.r.take().unwrap()) }
         }
         pub fn thread(&self) -> Thread { Thread { name: self.name, id: self.id } }
